@@ -338,6 +338,36 @@ pub fn write_glyph(g: &GlyphRec, style: u8) -> Vec<u8> {
     }
 }
 
+/// Offset of the first flag byte of a simple glyph record (None for empty / composite / truncated records).
+pub fn first_flag_offset(rec: &[u8]) -> Option<usize> {
+    if rec.len() < 10 {
+        return None;
+    }
+    let nc = i16::from_be_bytes([rec[0], rec[1]]);
+    if nc <= 0 {
+        return None;
+    }
+    let at = 10 + 2 * nc as usize;
+    let il = u16::from_be_bytes([*rec.get(at)?, *rec.get(at + 1)?]) as usize;
+    let f = at + 2 + il;
+    if f < rec.len() {
+        Some(f)
+    } else {
+        None
+    }
+}
+
+/// Which glyphs carry OVERLAP_SIMPLE (0x40) on their first flag (what a WOFF2 encoder puts into overlapSimpleBitmap).
+pub fn overlap_bits(glyf: &[u8], loca: &[u8], long: bool, n: usize) -> Result<Vec<bool>, String> {
+    let offs = read_loca(loca, long, n)?;
+    Ok((0..n)
+        .map(|k| {
+            let (a, b) = (offs[k] as usize, offs[k + 1] as usize);
+            a < b && b <= glyf.len() && first_flag_offset(&glyf[a..b]).map(|f| glyf[a + f] & 0x40 != 0).unwrap_or(false)
+        })
+        .collect())
+}
+
 /// loca offsets (numGlyphs + 1 of them) or an error.
 pub fn read_loca(loca: &[u8], long: bool, n: usize) -> Result<Vec<u32>, String> {
     let sz = if long { 4 } else { 2 };
